@@ -638,7 +638,7 @@ def run_prop(prop: Prop, tier: str, seed: int) -> int:
         recs = []
         harness_exc = []
         t_exec = time.time()
-        budget = float(os.environ.get("VERIF_EXEC_BUDGET", "900" if tier == "quick" else "21600"))
+        budget = float(os.environ.get("VERIF_EXEC_BUDGET", "300" if tier == "quick" else "21600"))
         truncated = 0
         for gi, g in enumerate(gens):
             if gi % 64 == 0 and time.time() - t_exec > budget:
